@@ -106,6 +106,20 @@ def cases_for(tier):
         out.append({"spec": {"prog": "filescatter2c", "n": n},
                     "plan": [_fs("/C1/0", {"original": ups}), _fs("/C2/0", {"original": ups})], "fm": _recov.FM(12),
                     "idle_only": True, "bound": 1 if quick else 2})
+    # THREE consumers of one lost output fail together: while one recovery holds the producer's lock, two more queue for it
+    for lose in ({"original": ["/A/0"]}, {"outputs": ["/A/0"]}):
+        out.append({"spec": {"prog": "filefan", "k": 3}, "plan": [_fs(f"/B{i}/0", lose) for i in range(3)], "fm": _recov.FM(12),
+                    "idle_only": True, "bound": 1 if quick else 2})
+        # ... and at the same instant (the failing jobs wait for each other at a barrier, then fail back to back)
+        out.append({"spec": {"prog": "filefan", "k": 3}, "plan": [dict(_fs(f"/B{i}/0", lose), barrier=True) for i in range(3)],
+                    "fm": _recov.FM(12), "idle_only": True, "bound": 1 if quick else 2})
+    # three recoveries with DIFFERENT ancestor sets: E needs A only, C1 and C2 need A and every B_i; all three fail at the same
+    # instant after one loss of everything upstream
+    for n in ((2,) if quick else (2, 3)):
+        ups = ["/A/0"] + [f"/B/0.{i}" for i in range(n)]
+        out.append({"spec": {"prog": "filescatter2c", "n": n, "e": True},
+                    "plan": [dict(_fs(j, {"original": ups}), barrier=True) for j in ("/E/0", "/C1/0", "/C2/0")], "fm": _recov.FM(12),
+                    "idle_only": True, "bound": 1 if quick else 2})
     # transfer-phase variants (the failing jobs have not started their commands yet)
     out.append({"spec": spec, "plan": [_fs("/B/0", {"original": ["/A/0"]}, "transfer"), _fs("/C/0", {"original": ["/A/0"]}, "transfer")], "fm": _recov.FM(12),
                 "idle_only": True, "bound": 1 if quick else 3})
